@@ -353,6 +353,12 @@ pub struct PresCfg {
 	pub len_none: bool,
 	/// bytes / fixed element-wise through `serialize_seq` (needs allow_slow_sequence_to_bytes)
 	pub bytes_as_seq: bool,
+	/// per node, a coin decides whether the value is presented through ANOTHER serde call that the crate documents
+	/// as equivalent for that schema node: integers of other widths, `char` / `bytes` for strings, `str` for bytes and
+	/// fixed, index / unit struct for enum symbols, tuples and tuple structs for arrays, struct variants for records,
+	/// `Some(value)` for the non-null branch of a two-branch nullable union, unit struct / unit variant for null
+	#[serde(default)]
+	pub alt_calls: bool,
 }
 impl PresCfg {
 	pub fn plain() -> Self {
@@ -366,6 +372,7 @@ impl PresCfg {
 			record_as_map: rng.chance(1, 3),
 			len_none: rng.chance(1, 3),
 			bytes_as_seq: allow_bytes_as_seq && rng.chance(1, 2),
+			alt_calls: rng.chance(1, 2),
 		}
 	}
 }
@@ -401,6 +408,9 @@ pub struct PresCtx<'a> {
 	/// nesting depth of record nodes at the moment the poison fired
 	pub depth: Cell<u32>,
 	pub poison_depth: Cell<u32>,
+	/// the next node is presented through its canonical call (it sits directly under `Some(..)`, where the union branch
+	/// is found from the call made)
+	pub canonical_next: Cell<bool>,
 }
 impl<'a> PresCtx<'a> {
 	pub fn new(env: &'a Env, cfg: PresCfg, poison: Option<Poison>) -> Self {
@@ -412,6 +422,7 @@ impl<'a> PresCtx<'a> {
 			poison_fired: Cell::new(false),
 			depth: Cell::new(0),
 			poison_depth: Cell::new(0),
+			canonical_next: Cell::new(false),
 		}
 	}
 	fn decide(&self, salt: u64, call: usize) -> u64 {
@@ -483,19 +494,45 @@ impl<'a> serde::Serialize for Presented<'a> {
 			}
 		}
 		let ty = ctx.env.resolve(self.ty);
+		// alternative (documented-equivalent) serde calls: 0 = the canonical one
+		let alt = if ctx.cfg.alt_calls && !ctx.canonical_next.replace(false) { ctx.decide(10, call) % 8 } else { 0 };
 		match (ty, self.val) {
-			(Ty::Null, Val::Null) => {
-				if ctx.decide(1, call) & 1 == 0 {
-					s.serialize_unit()
-				} else {
-					s.serialize_none()
+			(Ty::Null, Val::Null) => match alt {
+				5 => s.serialize_unit_struct("Nothing"),
+				6 => s.serialize_unit_variant("Nothing", 0, "Null"),
+				_ => {
+					if ctx.decide(1, call) & 1 == 0 {
+						s.serialize_unit()
+					} else {
+						s.serialize_none()
+					}
 				}
-			}
+			},
 			(Ty::Boolean, Val::Bool(b)) => s.serialize_bool(*b),
-			(Ty::Int | Ty::Date | Ty::TimeMillis, Val::Int(v)) => s.serialize_i32(*v),
-			(Ty::Long | Ty::TimeMicros | Ty::TimestampMillis | Ty::TimestampMicros, Val::Long(v)) => {
-				s.serialize_i64(*v)
-			}
+			(Ty::Int | Ty::Date | Ty::TimeMillis, Val::Int(v)) => match alt {
+				1 if i8::try_from(*v).is_ok() => s.serialize_i8(*v as i8),
+				2 if i16::try_from(*v).is_ok() => s.serialize_i16(*v as i16),
+				3 if u8::try_from(*v).is_ok() => s.serialize_u8(*v as u8),
+				4 if u16::try_from(*v).is_ok() => s.serialize_u16(*v as u16),
+				5 if *v >= 0 => s.serialize_u32(*v as u32),
+				5 => s.serialize_i64(*v as i64),
+				6 if *v >= 0 => s.serialize_u64(*v as u64),
+				6 => s.serialize_i128(*v as i128),
+				7 if *v >= 0 => s.serialize_u128(*v as u128),
+				_ => s.serialize_i32(*v),
+			},
+			(Ty::Long | Ty::TimeMicros | Ty::TimestampMillis | Ty::TimestampMicros, Val::Long(v)) => match alt {
+				1 if i8::try_from(*v).is_ok() => s.serialize_i8(*v as i8),
+				2 if i32::try_from(*v).is_ok() => s.serialize_i32(*v as i32),
+				3 if u16::try_from(*v).is_ok() => s.serialize_u16(*v as u16),
+				4 if u32::try_from(*v).is_ok() => s.serialize_u32(*v as u32),
+				5 if *v >= 0 => s.serialize_u64(*v as u64),
+				6 => s.serialize_i128(*v as i128),
+				7 if *v >= 0 => s.serialize_u128(*v as u128),
+				_ => s.serialize_i64(*v),
+			},
+			// (an f64 is accepted for an Avro float and narrowed: exact for every non-NaN f32)
+			(Ty::Float, Val::Float(bits)) if alt >= 5 && !f32::from_bits(*bits).is_nan() => s.serialize_f64(f32::from_bits(*bits) as f64),
 			(Ty::Float, Val::Float(bits)) => s.serialize_f32(f32::from_bits(*bits)),
 			(Ty::Double, Val::Double(bits)) => s.serialize_f64(f64::from_bits(*bits)),
 			(Ty::Bytes, Val::Bytes(b)) | (Ty::Fixed { .. }, Val::Fixed(b)) => {
@@ -506,19 +543,52 @@ impl<'a> serde::Serialize for Presented<'a> {
 						seq.serialize_element(byte)?;
 					}
 					seq.end()
+				} else if let (5..=7, Ok(text)) = (alt, std::str::from_utf8(b)) {
+					// bytes and fixed accept a str (its UTF-8 bytes)
+					s.serialize_str(text)
 				} else {
 					s.serialize_bytes(b)
 				}
 			}
-			(Ty::String | Ty::Uuid, Val::Str(v)) => s.serialize_str(v),
+			(Ty::String | Ty::Uuid, Val::Str(v)) => match alt {
+				1 | 2 if v.chars().count() == 1 => s.serialize_char(v.chars().next().unwrap()),
+				3 | 4 if matches!(ty, Ty::String) => s.serialize_bytes(v.as_bytes()),
+				5 => s.collect_str(v),
+				_ => s.serialize_str(v),
+			},
 			(Ty::Enum { name, symbols }, Val::Enum(i)) => {
 				if *i >= *symbols {
 					return Err(mismatch(self.val, ty));
 				}
-				if ctx.decide(4, call) & 1 == 0 {
-					s.serialize_str(ast::symbol(*i))
+				match alt {
+					1 => s.serialize_u32(*i as u32),
+					2 => s.serialize_i64(*i as i64),
+					3 if *i <= 255 => s.serialize_u8(*i as u8),
+					4 => s.serialize_unit_struct(ast::symbol(*i)),
+					_ => {
+						if ctx.decide(4, call) & 1 == 0 {
+							s.serialize_str(ast::symbol(*i))
+						} else {
+							s.serialize_unit_variant(ast::type_name(*name), *i as u32, ast::symbol(*i))
+						}
+					}
+				}
+			}
+			(Ty::Array(t), Val::Array(items)) if alt == 1 || alt == 2 => {
+				// a tuple / tuple struct of that many elements
+				use serde::ser::{SerializeTuple, SerializeTupleStruct};
+				if alt == 1 {
+					let mut seq = s.serialize_tuple(items.len())?;
+					for it in items {
+						seq.serialize_element(&self.child(it, t))?;
+					}
+					seq.end()
 				} else {
-					s.serialize_unit_variant(ast::type_name(*name), *i as u32, ast::symbol(*i))
+					let mut seq = s.serialize_tuple_struct("Items", items.len())?;
+					for it in items {
+						seq.serialize_field(&self.child(it, t))?;
+					}
+					seq.end()
 				}
 			}
 			(Ty::Array(t), Val::Array(items)) => {
@@ -558,6 +628,17 @@ impl<'a> serde::Serialize for Presented<'a> {
 							s.serialize_none()
 						}
 					}
+					// `Option<T>` for ["null", T]: the branch is found from the call `T` makes, so `T` presents itself
+					// against the union node, through its canonical call
+					rb if alt >= 4
+						&& ts.len() == 2
+						&& ts.iter().any(|t| matches!(ctx.env.resolve(t), Ty::Null))
+						&& matches!(rb, Ty::Boolean | Ty::Int | Ty::Long | Ty::Float | Ty::Double | Ty::String | Ty::Bytes | Ty::Array(_) | Ty::Map(_) | Ty::Record { .. }) =>
+					{
+						ctx.canonical_next.set(true);
+						s.serialize_some(&self.child(inner, bt))
+					}
+					_ if alt == 1 => s.serialize_newtype_struct(ast::branch_type_name(ctx.env, bt), &self.child(inner, bt)),
 					_ => s.serialize_newtype_variant(
 						"U",
 						*idx as u32,
@@ -618,6 +699,15 @@ impl<'a> serde::Serialize for Presented<'a> {
 							map.serialize_entry(ast::field_name(fields[i].0), &self.child(&vals[i], &fields[i].1))?;
 						}
 						map.end()
+					})()
+				} else if alt == 3 {
+					(|| {
+						use serde::ser::SerializeStructVariant;
+						let mut st = s.serialize_struct_variant("Any", 0, ast::type_name(*name), order.len())?;
+						for &i in &order {
+							st.serialize_field(ast::field_name(fields[i].0), &self.child(&vals[i], &fields[i].1))?;
+						}
+						st.end()
 					})()
 				} else {
 					(|| {
@@ -727,4 +817,18 @@ pub fn scale_classes(v: &Val, out: &mut Vec<&'static str>) {
 		}
 	}
 	go(v, 0, out);
+}
+
+
+/// `got` was captured by a target that deserializes some record fields into an ignoring visitor (they come back as the
+/// marker string): everything else must be exactly `want`
+pub fn eq_modulo_mask(got: &Val, want: &Val) -> bool {
+	match (got, want) {
+		(Val::Str(m), _) if m == crate::capture::MASKED => true,
+		(Val::Array(a), Val::Array(b)) => a.len() == b.len() && a.iter().zip(b).all(|(x, y)| eq_modulo_mask(x, y)),
+		(Val::Map(a), Val::Map(b)) => a.len() == b.len() && a.iter().zip(b).all(|((ka, x), (kb, y))| ka == kb && eq_modulo_mask(x, y)),
+		(Val::Record(a), Val::Record(b)) => a.len() == b.len() && a.iter().zip(b).all(|(x, y)| eq_modulo_mask(x, y)),
+		(Val::Union(i, x), Val::Union(j, y)) => i == j && eq_modulo_mask(x, y),
+		(a, b) => a == b,
+	}
 }
